@@ -92,6 +92,10 @@ func indexOf(ks []*wallet.KeyPair, a types.Address) int {
 }
 
 var MomentumMutations = []MomentumMutation{
+	{"signature-trailing-bytes", true, func(w *World, d *nom.DetailedMomentum) bool {
+		d.Momentum.Signature = append(append([]byte(nil), d.Momentum.Signature...), w.R.T.Bytes(1+w.R.T.Choose(8))...)
+		return true
+	}},
 	{"signature-bit-flipped", true, func(w *World, d *nom.DetailedMomentum) bool {
 		s := append([]byte(nil), d.Momentum.Signature...)
 		s[w.R.T.Choose(len(s))] ^= byte(1 << w.R.T.Choose(8))
